@@ -203,6 +203,7 @@ class ThrottleExecutor(CanCustomizeBind, Executor):
             for job in self._to_submit:
                 if job.future is future:
                     self._to_submit.remove(job)
+                    metrics.THROTTLE_QUEUE.labels(executor=self._name).dec()
                     self._ready_event.set()
                     self._log.debug("Cancelled %s", job)
                     return True
